@@ -290,7 +290,7 @@ def _ref_k(q, x, h1, hashf, extra, retry):
     V = hmac.new(K, V, hashf).digest()
     K = hmac.new(K, V + b"\x01" + tail, hashf).digest()
     V = hmac.new(K, V, hashf).digest()
-    while True:
+    for _ in range(5000):    # a 1-2 byte toy hash can cycle without an acceptable candidate
         T = b""
         while 8 * len(T) < qlen:
             V = hmac.new(K, V, hashf).digest()
@@ -332,11 +332,23 @@ def replay_genk(inp):
         if not (1 <= x < q):
             continue
         for rt in sorted(set([retry, 0, 1, 2])):
+            ref = _ref_k(q, x, d, hashf, extra, rt)
+            if ref is None:
+                continue      # the toy DRBG cycles for this input; not a usable case
+            import signal
+
+            def _alarm(*a):
+                raise TimeoutError()
+            signal.signal(signal.SIGALRM, _alarm)
+            signal.alarm(5)
             try:
                 got = rfc6979.generate_k(q, x, hashf, d, retry_gen=rt, extra_entropy=extra)
+            except TimeoutError:
+                return True, "generate_k(q=%d,x=%d,data=%s,retry=%d) does not terminate; RFC gives %d" % (q, x, d.hex(), rt, ref)
             except Exception as ex:
                 return True, "generate_k(q=%d,x=%d,data=%r,retry=%d) raises %r" % (q, x, d, rt, ex)
-            ref = _ref_k(q, x, d, hashf, extra, rt)
+            finally:
+                signal.alarm(0)
             tried += 1
             if got != ref or not (1 <= got < q):
                 return True, "generate_k(q=%d, x=%d, data=%s, extra=%s, retry_gen=%d, holen=%d) = %d, RFC 6979 gives %d" % (
